@@ -72,6 +72,7 @@ namespace randomx {
 		uint32_t spAddr1 = mem.ma;
 
 		for(unsigned ic = 0; ic < RANDOMX_PROGRAM_ITERATIONS; ++ic) {
+			RANDOMX_VERIF_EVENT("iter", this, ic, &nreg);
 			uint64_t spMix = nreg.r[config.readReg0] ^ nreg.r[config.readReg1];
 			spAddr0 ^= spMix;
 			spAddr0 &= ScratchpadL3Mask64;
@@ -130,6 +131,7 @@ namespace randomx {
 
 			spAddr0 = 0;
 			spAddr1 = 0;
+			RANDOMX_VERIF_EVENT("iter_end", this, ic, &nreg);
 		}
 
 		for (unsigned i = 0; i < RegistersCount; ++i)
